@@ -1,22 +1,104 @@
 (* C02 — every operation that violates an implemented rule is rejected. *)
 From GT Require Import Visitor Validate.
 From GTS Require Import Annot WfSchema SpecRules SpecValid.
-From GTP Require Import C07_position_proofs C02_proofs.
+From GTP Require Import C07_position_proofs C02_proofs C01_C02_full_proofs.
 
-(* The full statement (kept visible): *)
+(* The full statement as first written (kept visible).  As written it is FALSE, see
+   C02_statement_refuted. *)
 Definition C02_statement : Prop := forall s d r,
   wf_schema s = true -> doc_types_proper d = true -> violated r s d = true ->
   exists es, validate s d default_plan = Ok es /\ es <> [].
 
-(* ADJUSTED: when the violated rule is VariablesInAllowedPosition, additional hypothesis
-   [defaults_const d] (C07_position_proofs.v: no variable occurs inside the default value of a
-   variable definition), under which that rule's equivalence is proved.  Nothing is added for
-   the other rules. *)
+(* What is proved: a document violating ANY of the 23 rules of the default plan, the field-merging
+   rule included (documents with named fragment spreads of any nesting), makes validate return a
+   non-empty list of errors.  ADJUSTED with respect to C02_statement — three hypotheses, each
+   needed only when the violated rule is the one named:
+   - r = VariablesInAllowedPosition: [defaults_const d] (C07_position_proofs.v: no variable occurs
+     inside the default value of a variable definition), under which that rule's equivalence is
+     proved.  (No counterexample is known without it: the model sees more variable usages than the
+     specification, not fewer.)
+   - r = OverlappingFieldsCanBeMerged: the field nodes of the document have pairwise distinct
+     positions.  A fact about parsed documents (the parser gives every node its own position), that
+     the AST of the model does not enforce; the rule identifies field nodes by position
+     (same hypothesis as C05_acyclic_partial).
+   - r = OverlappingFieldsCanBeMerged: a type condition that names a type of the introspection
+     system (__Schema, __Type, ...) names a type the schema declares.  NEEDED: without it the
+     statement is false (C02_statement_refuted).  How it is used: completeness of the merge rule
+     (C05: merge_iff_acyclic) needs every inline type condition to have a definition in the schema;
+     if one has none, either KnownTypeNames is violated — and reports — or the name is one of the
+     introspection type names, which KnownTypeNames (model and specification) accept in every schema.
+   Nothing is assumed about the rule's scope: when the merge rule is out of its scope
+   (a fragment name defined twice, a fragment cycle, a repeated argument name), UniqueFragmentNames,
+   NoFragmentsCycle or UniqueArgumentNames is violated and reports.  Nothing is assumed about fuel
+   (C03: no rule exhausts its fuel, merge_no_fuel_exhaustion included). *)
+Theorem C02_rejects_invalid : forall s d r,
+  wf_schema s = true -> doc_types_proper d = true -> violated r s d = true ->
+  (r = R_VariablesInAllowedPosition -> defaults_const d = true) ->
+  (r = R_OverlappingFieldsCanBeMerged ->
+     NoDup (map node_pos (filter (fun x => match x with SField _ _ _ _ _ _ _ => true | _ => false end)
+                                 (doc_selections d)))) ->
+  (r = R_OverlappingFieldsCanBeMerged ->
+     forall n, In n (type_conditions d) -> mem_name n introspection_type_names = true ->
+               type_by_name s n <> None) ->
+  exists es, validate s d default_plan = Ok es /\ es <> [].
+Proof. exact violation_rejected_full. Qed.
+Print Assumptions C02_rejects_invalid.
 
-(* What is proved: a document violating any rule other than field merging is never accepted
-   (validate does not return Ok []); completeness of the merge rule is C05 (partial), and that
-   the merge rule never exhausts its fuel is C03 (partial), hence "not accepted" instead of
-   "returns a non-empty error list". *)
+(* the same with the third hypothesis restricted to the type conditions of INLINE fragments (those
+   of fragment definitions do not matter) *)
+Theorem C02_rejects_invalid_inline : forall s d r,
+  wf_schema s = true -> doc_types_proper d = true -> violated r s d = true ->
+  (r = R_VariablesInAllowedPosition -> defaults_const d = true) ->
+  (r = R_OverlappingFieldsCanBeMerged -> NoDup (map node_pos (filter is_field_sel (doc_selections d)))) ->
+  (r = R_OverlappingFieldsCanBeMerged ->
+     forall p tc dirs sp sels, In (SInline p (Some tc) dirs sp sels) (doc_selections d) ->
+       mem_name tc introspection_type_names = true -> type_by_name s tc <> None) ->
+  exists es, validate s d default_plan = Ok es /\ es <> [].
+Proof. exact violation_rejected_full_inline. Qed.
+Print Assumptions C02_rejects_invalid_inline.
+
+(* for every rule other than field merging, nothing but [defaults_const] (for
+   VariablesInAllowedPosition) is added to C02_statement *)
+Theorem C02_other_rules : forall s d r,
+  wf_schema s = true -> doc_types_proper d = true ->
+  r <> R_OverlappingFieldsCanBeMerged -> violated r s d = true ->
+  (r = R_VariablesInAllowedPosition -> defaults_const d = true) ->
+  exists es, validate s d default_plan = Ok es /\ es <> [].
+Proof. exact violation_rejected_errors_all. Qed.
+Print Assumptions C02_other_rules.
+
+(* C02_statement is false.  On   type Query { q: T }  type T { f: U }  type U { x: Int }
+   type A { x: String }   (a well-formed schema that does not declare the introspection types):
+     { q { ...G }  q { ...G } }
+     fragment G on T { ... on __Type { f { x  ... on A { x } } } }
+   violates the specification of field merging (x : Int against x : String below f) and no other
+   rule's specification; the default plan returns Ok [].  The field positions are distinct and the
+   merge rule is in scope: the only hypothesis of C02_rejects_invalid that fails is the one on
+   introspection type names. *)
+Theorem C02_counterexample :
+  wf_schema c02_cex_schema = true /\ doc_types_proper c02_cex_doc = true /\
+  defaults_const c02_cex_doc = true /\
+  violated R_OverlappingFieldsCanBeMerged c02_cex_schema c02_cex_doc = true /\
+  filter (fun r => violated r c02_cex_schema c02_cex_doc) all_rules = [R_OverlappingFieldsCanBeMerged] /\
+  rule_in_scope R_OverlappingFieldsCanBeMerged c02_cex_schema c02_cex_doc = true /\
+  validate c02_cex_schema c02_cex_doc default_plan = Ok [] /\
+  type_by_name c02_cex_schema "__Type" = None /\
+  In "__Type" (type_conditions c02_cex_doc) /\
+  mem_name "__Type" introspection_type_names = true.
+Proof. exact c02_cex_facts. Qed.
+Print Assumptions C02_counterexample.
+
+Theorem C02_counterexample_positions :
+  NoDup (map node_pos (filter is_field_sel (doc_selections c02_cex_doc))).
+Proof. exact c02_cex_positions. Qed.
+Print Assumptions C02_counterexample_positions.
+
+Theorem C02_statement_refuted : ~ C02_statement.
+Proof. exact c02_statement_false. Qed.
+Print Assumptions C02_statement_refuted.
+
+(* ---- the earlier, weaker forms (they stay true; superseded by the theorems above) ---- *)
+(* "not accepted" instead of "returns a non-empty error list", rules other than field merging *)
 Theorem C02_partial : forall s d r,
   wf_schema s = true -> doc_types_proper d = true ->
   r <> R_OverlappingFieldsCanBeMerged -> violated r s d = true ->
@@ -25,7 +107,7 @@ Theorem C02_partial : forall s d r,
 Proof. exact violation_rejected. Qed.
 Print Assumptions C02_partial.
 
-(* and when the merge rule does not exhaust its fuel the result is a non-empty error list *)
+(* with the fuel of the merge rule as a hypothesis (now a theorem: C02_other_rules) *)
 Theorem C02_partial_errors : forall s d r,
   wf_schema s = true -> doc_types_proper d = true ->
   r <> R_OverlappingFieldsCanBeMerged -> violated r s d = true ->
@@ -34,3 +116,23 @@ Theorem C02_partial_errors : forall s d r,
   exists es, validate s d default_plan = Ok es /\ es <> [].
 Proof. exact violation_rejected_errors. Qed.
 Print Assumptions C02_partial_errors.
+
+(* non-vacuity: { t { ...F  x: b } } fragment F on T { x: a } over pool_minimal violates the
+   field-merging rule only, satisfies all hypotheses of C02_rejects_invalid with
+   r = R_OverlappingFieldsCanBeMerged, and the model answers with one error of that rule *)
+Theorem C02_non_vacuous :
+  wf_schema nv_schema = true /\ doc_types_proper nv_invalid_doc = true /\
+  violated R_OverlappingFieldsCanBeMerged nv_schema nv_invalid_doc = true /\
+  filter (fun r => violated r nv_schema nv_invalid_doc) all_rules = [R_OverlappingFieldsCanBeMerged] /\
+  rule_in_scope R_OverlappingFieldsCanBeMerged nv_schema nv_invalid_doc = true /\
+  type_conditions nv_invalid_doc = ["T"].
+Proof. exact nv_invalid_hyps. Qed.
+Print Assumptions C02_non_vacuous.
+Theorem C02_non_vacuous_positions :
+  NoDup (map node_pos (filter is_field_sel (doc_selections nv_invalid_doc))).
+Proof. exact nv_invalid_positions. Qed.
+Print Assumptions C02_non_vacuous_positions.
+Theorem C02_non_vacuous_result :
+  exists e, validate nv_schema nv_invalid_doc default_plan = Ok [e] /\ e_rule e = R_OverlappingFieldsCanBeMerged.
+Proof. exact nv_invalid_result. Qed.
+Print Assumptions C02_non_vacuous_result.
